@@ -75,9 +75,9 @@ def for_enumerate_into_iter(label, invariant, vec_name=None, pre_body="", post_b
         return [f"let mut verif_k_{label} : usize = 0 ; while verif_k_{label} < {v} . len ( )",
                 G(invariant.replace("$K", f"verif_k_{label}").replace("$V", v)),
                 "{", f"let {i} = verif_k_{label} ; let {x} = clone_item ( & {v} [ {i} ] ) ; verif_k_{label} += 1 ;",
-                *( [G(pre_body.replace("$K", f"verif_k_{label}"))] if pre_body else []),
+                *( [G(pre_body.replace("$K", f"verif_k_{label}").replace("$V", v))] if pre_body else []),
                 *body,
-                *( [G(post_body.replace("$K", f"verif_k_{label}"))] if post_body else []),
+                *( [G(post_body.replace("$K", f"verif_k_{label}").replace("$V", v))] if post_body else []),
                 "}"]
 
     return Rule("R2", "for ( $i , $x ) in $v . into_iter ( ) . enumerate ( ) { $$body }", repl, count=1,
@@ -123,3 +123,25 @@ class VUnit:
 
     def __init__(self, uid, props, title, build, timeout=300):
         self.uid, self.props, self.title, self.build, self.timeout = uid, props, title, build, timeout
+
+
+def for_each_iter_mut_enumerate(label, invariant, pre_body="", post_body=""):
+    """R2/R13: `v.iter_mut().enumerate().for_each(|(i, x)| BODY);` -> indexed while; `*x = e` -> `v.set(i, e)`;
+    `x` is bound to a clone of the element (the closure only reads it before overwriting)."""
+
+    def repl(b):
+        v, i, x = text(b["v"]), text(b["i"]), text(b["x"])
+        body = list(b["body"])
+        log = []
+        body = Rule("R13", f"* {x} = $$e ;", f"{v} . set ( {i} , $$e ) ;").apply(body, log)
+        body = Rule("R13", f"* {x} = $$e }}", f"{v} . set ( {i} , $$e ) ; }}").apply(body, log)
+        body = Rule("R13", "( ref $n )", "( $n )").apply(body, log)
+        K = f"verif_k_{label}"
+        sub = lambda s: s.replace("$K", K).replace("$V", v)
+        return [f"let mut {K} : usize = 0 ; while {K} < {v} . len ( )", G(sub(invariant)), "{",
+                f"let {i} = {K} ; let {x} = clone_item ( & {v} [ {i} ] ) ; {K} += 1 ;",
+                *([G(sub(pre_body))] if pre_body else []), *body, ";",
+                *([G(sub(post_body))] if post_body else []), "}"]
+
+    return Rule("R2", "$v . iter_mut ( ) . enumerate ( ) . for_each ( | ( $i , $x ) | $$body ) ;", repl, count=1,
+                why="iter_mut().enumerate().for_each(closure) -> indexed while; `*item = e` -> v.set(i, e) (iteration order of std iterators)")
